@@ -122,6 +122,16 @@ impl World {
                 }
             }
         }
+        // I4: an input reservation exists only for an input of a pooled transaction (a reservation
+        // that outlives its transaction locks the output against every later spend)
+        let pooled_keys: BTreeSet<SaitoUTXOSetKey> = pool.iter().flat_map(|t| t.from.iter().map(|s| s.utxoset_key)).collect();
+        let stale = self.node.mempool.utxo_map.keys().filter(|k| !pooled_keys.contains(*k)).count();
+        if stale > 0 {
+            v.push((
+                format!("C14|reservation_without_pooled_tx|after={op}"),
+                format!("step {step} ({op}): {stale} input reservation(s) of the pool belong to no pooled transaction"),
+            ));
+        }
         // I3: cached routing work == sum over pooled transactions
         let sum: u64 = pool.iter().map(|t| t.total_work_for_me).sum();
         if self.node.mempool.get_routing_work_available() != sum {
@@ -308,6 +318,13 @@ pub fn run_case(case: &Case) -> (Vec<(String, String)>, Info) {
                     }
                     Outcome::Returned(Some(b)) => {
                         info.bundles_ok += 1;
+                        // between bundling and adding the block (which may yet fail or lose against a
+                        // competing block) the pool must already be consistent
+                        let between = w.invariants(step, "bundle_before_add");
+                        if !between.is_empty() {
+                            v.extend(between);
+                            break;
+                        }
                         let bundled: BTreeSet<Vec<u8>> = b.transactions.iter().filter(|t| t.transaction_type == TransactionType::Normal).map(|t| t.signature.to_vec()).collect();
                         w.table.insert(&b);
                         let (r, _) = guarded_add(&mut w.node, b, 256);
@@ -517,7 +534,7 @@ pub fn arb_case(max_ops: usize) -> impl Strategy<Value = Case> {
 }
 
 pub fn run(ctx: &mut Ctx) {
-    ctx.rule = "operation sequences (3..30 ops) over one node: add fresh / conflicting / duplicate / invalid transactions through the pool's public entry, bundle locally with the node's own producer, peer blocks that confirm a subset of the pooled transactions, peer blocks that spend ONE input of a (multi-input) pooled transaction, failed block additions, peer side chains that reorganise away recent blocks; after every operation: no two pooled transactions share a value input; every pooled transaction is valid on the current ledger per the independent reference ledger; get_routing_work_available equals the sum over pooled transactions; a bundle yields an accepted block and removes its transactions or leaves the pool unchanged; a rejected block leaves the pool unchanged. terminal probe: every spendable output that no pooled transaction spends is spent by a fresh signed transaction, which must be admitted. evaluations = operations executed. non-trivial = sequence contains a peer block touching a pooled transaction; distinct by case digest".into();
+    ctx.rule = "operation sequences (3..30 ops) over one node: add fresh / conflicting / duplicate / invalid transactions through the pool's public entry, bundle locally with the node's own producer, peer blocks that confirm a subset of the pooled transactions, peer blocks that spend ONE input of a (multi-input) pooled transaction, failed block additions, peer side chains that reorganise away recent blocks; after every operation: no two pooled transactions share a value input; every pooled transaction is valid on the current ledger per the independent reference ledger; get_routing_work_available equals the sum over pooled transactions; every input reservation belongs to a pooled transaction (also between bundle_block and the addition of the bundled block); a bundle yields an accepted block and removes its transactions or leaves the pool unchanged; a rejected block leaves the pool unchanged. terminal probe: every spendable output that no pooled transaction spends is spent by a fresh signed transaction, which must be admitted. evaluations = operations executed. non-trivial = sequence contains a peer block touching a pooled transaction; distinct by case digest".into();
     let cases = ctx.tier.pick(600u32, 20_000);
     pbt_run(ctx, "pool_ops", cases, arb_case(30), |c, case, counting| eval(c, case, counting));
 }
